@@ -176,3 +176,100 @@ pub fn model_sort_by<T, F: FnMut(&T, &T) -> core::cmp::Ordering>(v: &mut [T], mu
         i += 1;
     }
 }
+
+// --- RandomState shim: stand-in for std::collections::hash_map::RandomState in
+// ntp-proto/src/server.rs (declared source transform, see /verif/transforms.json).
+// `RandomState::new()` needs the getrandom syscall and there is no other safe constructor.
+// The shim's hasher ignores its input and returns an ARBITRARY u64 from `finish`, i.e. it
+// over-approximates every hash function (including non-deterministic ones); harnesses that need
+// "the same item hashes to the same slot" stub `TimestampedCache::index` by a memoised
+// uninterpreted function instead (assumption A-hash).
+#[derive(Debug, Clone)]
+pub struct RandomState {
+    _k: u64,
+}
+impl RandomState {
+    pub fn new() -> Self {
+        RandomState { _k: 0 }
+    }
+}
+pub struct AnyHasher;
+impl std::hash::Hasher for AnyHasher {
+    fn write(&mut self, _bytes: &[u8]) {}
+    fn finish(&self) -> u64 {
+        kani::any()
+    }
+}
+impl std::hash::BuildHasher for RandomState {
+    type Hasher = AnyHasher;
+    fn build_hasher(&self) -> AnyHasher {
+        AnyHasher
+    }
+}
+
+// --- cross-module constructors / observers (added for the source.rs units C07-C13, C33).
+// Several types keep their fields private to the defining module (NtpPacket, NtpHeaderV3V4,
+// RequestIdentifier, CookieStash, ...). A harness in another module (e.g. source.rs driving
+// handle_incoming with an arbitrary decoded packet) cannot build them. Trait impls are not subject
+// to module privacy, so the harness module of the *defining* file implements these two traits and
+// any harness in the crate can use them. They only assemble / read fields; no behaviour.
+pub trait FromParts<P>: Sized {
+    fn from_parts(p: P) -> Self;
+}
+pub trait Parts<P> {
+    fn parts(&self) -> P;
+}
+/// all fields of `packet::NtpHeaderV3V4`
+#[derive(Clone, Copy)]
+pub struct V3V4Parts {
+    pub leap: crate::packet::NtpLeapIndicator,
+    pub mode: crate::packet::NtpAssociationMode,
+    pub stratum: u8,
+    pub poll: crate::time_types::PollInterval,
+    pub precision: i8,
+    pub root_delay: crate::time_types::NtpDuration,
+    pub root_dispersion: crate::time_types::NtpDuration,
+    pub reference_id: crate::identifiers::ReferenceId,
+    pub reference_timestamp: crate::time_types::NtpTimestamp,
+    pub origin_timestamp: crate::time_types::NtpTimestamp,
+    pub receive_timestamp: crate::time_types::NtpTimestamp,
+    pub transmit_timestamp: crate::time_types::NtpTimestamp,
+}
+/// extension-field lists of a decoded packet: (authenticated, encrypted, untrusted)
+pub type EfLists = (
+    Vec<crate::packet::ExtensionField<'static>>,
+    Vec<crate::packet::ExtensionField<'static>>,
+    Vec<crate::packet::ExtensionField<'static>>,
+);
+
+// --- randomness: `rand::thread_rng()` / `rand::random()` are replaced (declared transform, see
+// /verif/transforms.json) by a generator whose every draw is nondeterministic. The distribution
+// code layered on top (gen_range, Standard for arrays / NtpTimestamp, ...) stays the real one.
+pub struct NondetRng;
+impl rand::RngCore for NondetRng {
+    fn next_u32(&mut self) -> u32 {
+        kani::any()
+    }
+    fn next_u64(&mut self) -> u64 {
+        kani::any()
+    }
+    fn fill_bytes(&mut self, dest: &mut [u8]) {
+        for b in dest.iter_mut() {
+            *b = kani::any();
+        }
+    }
+    fn try_fill_bytes(&mut self, dest: &mut [u8]) -> Result<(), rand::Error> {
+        self.fill_bytes(dest);
+        Ok(())
+    }
+}
+pub fn thread_rng() -> NondetRng {
+    NondetRng
+}
+pub fn random<T>() -> T
+where
+    rand::distributions::Standard: rand::distributions::Distribution<T>,
+{
+    use rand::Rng;
+    NondetRng.r#gen()
+}
